@@ -24,6 +24,16 @@ __all__ = ['Encoder', 'encode']
 LOG = debug.registerLoggee(__name__, flags=debug.DEBUG_ENCODER)
 
 
+def _printable(value):
+    # for log lines: octets that are no text in the declared
+    # encoding must not make a logged call fail
+    try:
+        return str(value)
+
+    except error.PyAsn1UnicodeDecodeError:
+        return repr(value)
+
+
 class AbstractItemEncoder(object):
     supportIndefLenMode = True
 
@@ -111,7 +121,8 @@ class AbstractItemEncoder(object):
 
                 if LOG:
                     LOG('encoded %svalue %s into %s' % (
-                        isConstructed and 'constructed ' or '', value, substrate
+                        isConstructed and 'constructed ' or '',
+                        _printable(value), substrate
                     ))
 
                 if not substrate and isConstructed and options.get('ifNotEmpty', False):
@@ -824,7 +835,7 @@ class SingleItemEncoder(object):
                 'value:\n%s' % (not options.get('defMode', True) and 'in' or '',
                                 options.get('maxChunkSize', 0),
                                 asn1Spec is None and value.prettyPrintType() or
-                                asn1Spec.prettyPrintType(), value))
+                                asn1Spec.prettyPrintType(), _printable(value)))
 
         if self.fixedDefLengthMode is not None:
             options.update(defMode=self.fixedDefLengthMode)
